@@ -2,7 +2,7 @@
 reference model + all interleavings at static-access granularity checked for linearizability."""
 import os, sys, json, time, subprocess
 from concurrent.futures import ThreadPoolExecutor
-from . import vbuild, common
+from . import vbuild, common, clientmatrix
 ROOT = common.ROOT
 BIN = os.path.join(ROOT, "build", "trapvm", "c13")
 SRC = [os.path.join(ROOT, "engine", "trapvm", f) for f in ("c13.c", "trapvm.c", "trapvm.h")]
@@ -47,6 +47,14 @@ def run(tier, deadline):
                 elif o["t"] == "stat":
                     st["schedules"] += o["schedules"]; st["lin_states"] += o["states"]; st["lin_op_sets"] += o["op_sets"]; st["max_points"] = max(st["max_points"], o["max_points"])
                 elif o["t"] == "internal": internal.append(f"{j}: {o['msg']}")
+    # ---- an optimised application registering through the public headers: what the headers promise about the returned pointer must be what the library does
+    client_runs = 0
+    for cc, opt in clientmatrix.configs(tier):
+        out, err = clientmatrix.build_run(os.path.join(clientmatrix.CDIR, "handlerclient.c"), cc, opt)
+        if out is None: internal.append(f"handlerclient {cc}-{opt}: {err}"); continue
+        client_runs += 1
+        for l in clientmatrix.wrong_lines(out):
+            w = l.split(); viol.setdefault(f"C13|client|{w[1]}|{cc}-{opt}", [0, f"client handlerclient {cc} {opt}", l])[0] += 1
     if internal:
         for m in internal[:10]: print("INTERNAL-ERROR:", m, file=sys.stderr)
         return 2
@@ -60,7 +68,7 @@ def run(tier, deadline):
            "bfs": {"depth": depth, "handler_values": nh, "max_threads": 3, "model_states_x_lib_static_hash": st["states"], "histories_executed": st["histories"]},
            "linearizability": {"threads": 2, "ops_per_thread": [1, 2], "op_sets": st["lin_op_sets"], "schedules": st["schedules"], "preemption_bound": 2 if tier == "quick" else 3, "max_scheduling_points": st["max_points"]},
            "evaluations": st["histories"] + st["schedules"], "distinct_nontrivial": st["states"] + st["lin_states"],
-           "rule": f"third BFS alphabet: handler values NULL, abort_handler_s (pre-empted by the harness so that its invocation is observed), H1 (thorough: ignore_handler_s named explicitly), depth {d3}, up to {mt3} threads. second BFS alphabet: handlers NULL, HJ (a handler that leaves through longjmp), H1 (thorough: H2), op call(f) = one of 2 (thorough: 6) calls that violate nothing (wcsnatcmp_s with folding, sprintf_s; thorough: wcsicmp_s, wcsnorm_s, strcpy_s, memset_s) which must fail nothing, invoke nothing and change no registration; configurations (depth, handler values, calls, threads) = {cfg2}; histories that differ in who has left a handler by longjmp or made which call are kept apart when de-duplicating. " + "BFS: every (thread, op) extension of every history that reached a new (model state, hash of the library's static bytes) pair, each history executed from the pristine library image on fresh real threads; oracle per step: identity of the handler that ran, thread, code, return of registrations vs the 15-line model (child inheritance left open). Access level: every interleaving of 2 threads at static-access granularity up to the preemption bound; oracle: a model-accepted sequential order consistent with real time exists",
+           "rule": f"client application (engine/clients/handlerclient.c) built from the public headers for gcc and clang x optimisation levels: first and later registrations of all four setters, a foldable and a volatile comparison of the returned pointer with NULL must agree, the save/restore idiom leaves the thread's registration working. third BFS alphabet: handler values NULL, abort_handler_s (pre-empted by the harness so that its invocation is observed), H1 (thorough: ignore_handler_s named explicitly), depth {d3}, up to {mt3} threads. second BFS alphabet: handlers NULL, HJ (a handler that leaves through longjmp), H1 (thorough: H2), op call(f) = one of 2 (thorough: 6) calls that violate nothing (wcsnatcmp_s with folding, sprintf_s; thorough: wcsicmp_s, wcsnorm_s, strcpy_s, memset_s) which must fail nothing, invoke nothing and change no registration; configurations (depth, handler values, calls, threads) = {cfg2}; histories that differ in who has left a handler by longjmp or made which call are kept apart when de-duplicating. " + "BFS: every (thread, op) extension of every history that reached a new (model state, hash of the library's static bytes) pair, each history executed from the pristine library image on fresh real threads; oracle per step: identity of the handler that ran, thread, code, return of registrations vs the 15-line model (child inheritance left open). Access level: every interleaving of 2 threads at static-access granularity up to the preemption bound; oracle: a model-accepted sequential order consistent with real time exists",
            "timed_out_jobs": len(timed_out)}
     assumptions = ["the executable's ignore_handler_s pre-empts the library's default handler (symbol interposition), so the default is observable",
                    "pristine 'never registered' state is recreated by restoring the library's .data/.bss image and using fresh threads (fresh TLS)"]
@@ -70,6 +78,13 @@ def run(tier, deadline):
 def replay(kv, quiet=False):
     build(); env = dict(os.environ, CAT_LIB=vbuild.build("prod"))
     c = kv["case"].split()
+    if c[0] == "client":
+        out, err = clientmatrix.build_run(os.path.join(clientmatrix.CDIR, c[1] + ".c"), c[2], c[3])
+        if out is None: print("INTERNAL-ERROR:", err); return 2
+        if not quiet: sys.stdout.write(out)
+        bad = bool(clientmatrix.wrong_lines(out))
+        if not quiet: print("VERDICT violation" if bad else "VERDICT ok")
+        return 1 if bad else 0
     args = ["replay-hist", c[1]] if c[0] == "hist" else ["replay-lin"] + c[1:]
     r = subprocess.run([BIN] + args, capture_output=True, text=True, env=env)
     if not quiet: sys.stdout.write(r.stdout); sys.stderr.write(r.stderr)
